@@ -739,7 +739,7 @@ func isFieldAddr(v ssa.Value, typ, field string) (ssa.Value, bool) {
 	if f == nil || f.Name() != aliasField(typ, field) {
 		return nil, false
 	}
-	if typeName(fa.X.Type()) != typ {
+	if typeName(fa.X.Type()) != ownerOf(typ, field) {
 		return nil, false
 	}
 	return base, true
@@ -755,7 +755,7 @@ func isFieldLoad(v ssa.Value, typ, field string) (ssa.Value, bool) {
 		return isFieldAddr(x.X, typ, field)
 	case *ssa.Field:
 		base, f := fieldOf(x)
-		if f != nil && f.Name() == aliasField(typ, field) && typeName(x.X.Type()) == typ {
+		if f != nil && f.Name() == aliasField(typ, field) && typeName(x.X.Type()) == ownerOf(typ, field) {
 			return base, true
 		}
 	}
